@@ -651,7 +651,12 @@ def check_as4_reconcile(prog, r):
     except PathLimit:
         r.unanalysable("reconcile_as4: too many paths", fv.loc())
         return
+    # the merge: the call of the reconcile helper, or (helper inlined) the AS_PATH attribute being rebuilt from bytes
     merge_blocks = {b for b, t in fv.calls(re.compile(r".*Attribute::as_path_reconcile$"))}
+    for b, t in fv.calls(re.compile(r".*Attribute::new_with_bin$")):
+        a0 = t["args"][0] if t["args"] else {}
+        if (a0.get("k") or {}).get("v") == 2 or str((a0.get("k") or {}).get("def", "")).endswith("Attribute::AS_PATH"):
+            merge_blocks.add(b)
     if not merge_blocks or not paths:
         r.unanalysable("reconcile_as4: no call of Attribute::as_path_reconcile / no path", fv.loc())
         return
